@@ -29,6 +29,8 @@ def add (u v : V3) : V3 := ⟨u.x + v.x, u.y + v.y, u.z + v.z⟩
 def sub (u v : V3) : V3 := ⟨u.x - v.x, u.y - v.y, u.z - v.z⟩
 def neg (u : V3) : V3 := ⟨-u.x, -u.y, -u.z⟩
 def smul (k : R) (u : V3) : V3 := ⟨k * u.x, k * u.y, k * u.z⟩
+/-- `u / k` (numpy: a 3-vector divided by a scalar) -/
+def divS (u : V3) (k : R) : V3 := ⟨u.x / k, u.y / k, u.z / k⟩
 def dot (u v : V3) : R := u.x * v.x + u.y * v.y + u.z * v.z
 def cross (u v : V3) : V3 := ⟨u.y * v.z - u.z * v.y, u.z * v.x - u.x * v.z, u.x * v.y - u.y * v.x⟩
 def norm (u : V3) : R := sqrt (dot u u)
